@@ -713,6 +713,10 @@ class Func:
                         and all(p_['k'] == 'field' for p_ in payload['op']['p']):
                     roots.add(payload['op']['l'])
                     work.append(payload['op']['l'])
+                # an integer cast carries its operand
+                if kind == 'assign' and payload['k'] == 'cast' and 'l' in payload['op'] and not payload['op']['p'] and payload['op']['l'] not in roots:
+                    roots.add(payload['op']['l'])
+                    work.append(payload['op']['l'])
                 # a one-field wrapper (union arm, newtype) carries its operand
                 if kind == 'assign' and payload['k'] == 'agg' and len(payload.get('ops', [])) == 1 and 'l' in payload['ops'][0] \
                         and not payload['ops'][0]['p'] and payload['ops'][0]['l'] not in roots:
@@ -745,6 +749,8 @@ class Func:
                         rv = st['rv']
                         if rv['k'] == 'use' and 'l' in rv['op'] and not rv['op']['p'] and rv['op']['l'] in roots:
                             # (a source defined before the start of the search: its static definition, if unique)
+                            lastd[x] = lastd.get(rv['op']['l'], ('S', rv['op']['l']) if self.single_def(rv['op']['l']) else 'entry')
+                        elif rv['k'] == 'cast' and 'l' in rv['op'] and not rv['op']['p'] and rv['op']['l'] in roots:
                             lastd[x] = lastd.get(rv['op']['l'], ('S', rv['op']['l']) if self.single_def(rv['op']['l']) else 'entry')
                         elif rv['k'] == 'agg' and len(rv.get('ops', [])) == 1 and 'l' in rv['ops'][0] and not rv['ops'][0]['p'] and rv['ops'][0]['l'] in roots:
                             lastd[x] = lastd.get(rv['ops'][0]['l'], 'entry')
@@ -1669,3 +1675,25 @@ def resolve_upvars(facts, closure, e):
             return Expr(tuple(rec(a) if isinstance(a, tuple) and a and isinstance(a[0], str) else a for a in x))
         return x
     return rec(e)
+
+
+def def_expr(f, d, eb=None):
+    """expression of a reaching definition as returned by Func.reaching_defs: a location (statement or call),
+    ('S', local) = the unique static definition of a local, ('F', inner, path) = a field of a tuple/struct definition"""
+    eb = eb or ExprBuilder(f, multi='phi')
+    if d == 'entry':
+        return E('unknown', 'value on entry')
+    if isinstance(d, tuple) and d and d[0] == 'S':
+        return eb.local(d[1])
+    if isinstance(d, tuple) and d and d[0] == 'F':
+        inner, path = d[1], d[2]
+        if inner == 'entry' or (isinstance(inner, tuple) and inner and inner[0] in ('F', 'S')):
+            base = def_expr(f, inner, eb)
+            return simplify_proj(base, tuple('.%s' % i for i in path), None)
+        st = f.at(inner)
+        if not f.is_term(inner) and st['rv']['k'] == 'agg' and len(path) == 1 and path[0] is not None and path[0] < len(st['rv']['ops']):
+            return eb.operand(st['rv']['ops'][path[0]])
+        e = eb.call(st) if f.is_term(inner) else eb.rvalue(st['rv'])
+        return simplify_proj(e, tuple('.%s' % i for i in path), None)
+    st = f.at(d)
+    return eb.call(st) if f.is_term(d) else eb.rvalue(st['rv'])
